@@ -101,10 +101,10 @@ def run (line : String) : String :=
       let g := if compressed then ObiVerif.Sniff.Mime.other else ObiVerif.Sniff.guess (ObiVerif.Sniff.stripBOM d)
       if ["text/fasta", "text/fastq", "text/ecopcr2", "text/genbank", "text/embl"].contains mime then
         if g.name == mime then s!"ok {mime}" else s!"MISMATCH model={g.name}"
-      else if ["text/plain", "application/octet-stream", "text/csv"].contains mime then
-        if g == .other then "ok other" else s!"MISMATCH model={g.name}"
-      else if mime == "empty" then "ok other"
-      else "builtin"
+      -- anything else (text/csv, text/plain, application/octet-stream, empty file, a built-in detector of the
+      -- library, an error of the opener): csv and the built-in detectors are asked AFTER the five, none of the five
+      -- may have fired
+      else if g == .other then "ok other" else s!"MISMATCH model={g.name}"
     | none => "bad-op"
   | ["pair", hf, hr] =>
     -- paired reading (PairTo is modelled and proved by C03): as many pairs as records, both files well-formed
